@@ -190,6 +190,31 @@ def make_primitives(ctl, thread_namer=None):
         def __enter__(self): self.acquire(); return self
         def __exit__(self, *a): self.release()
 
+    class FRLock:
+        """re-entrant lock (threading.RLock): owner + count; only the first acquire / last release are yield points"""
+        def __init__(self):
+            self._owner = None; self._count = 0
+        def _me(self):
+            return ctl.me() or "main"
+        def acquire(self, blocking=True, timeout=-1):
+            me = self._me()
+            if self._owner is me:
+                self._count += 1; return True
+            to = ctl.yield_point(P("Lock.acquire"), blocked=(lambda: self._owner is None) if blocking else None,
+                                 timeout=blocking and timeout is not None and timeout >= 0)
+            if to or self._owner is not None: return False
+            self._owner = me; self._count = 1
+            return True
+        def release(self):
+            if self._owner is not self._me(): raise RuntimeError("cannot release un-acquired lock")
+            if self._count > 1:
+                self._count -= 1; return
+            ctl.yield_point(P("Lock.release"))
+            self._owner = None; self._count = 0
+        def locked(self): return self._owner is not None
+        def __enter__(self): self.acquire(); return self
+        def __exit__(self, *a): self.release()
+
     class FEvent:
         def __init__(self): self._flag = False
         def set(self):
@@ -233,13 +258,24 @@ def make_primitives(ctl, thread_namer=None):
         def fileno(self): raise RuntimeError("FPinger has no descriptor; use the replaced select")
         def __repr__(self): return "<FPinger %d>" % self.count
 
+    def _ready(o, attr):
+        """pingers are readable when their pipe is not empty; any other object says so itself through a harness-set
+        attribute `fsel_readable` / `fsel_writable` / `fsel_error` (a callable)"""
+        if isinstance(o, FPinger): return attr == "fsel_readable" and o.count > 0
+        f = getattr(o, attr, None)
+        if f is None:
+            if attr == "fsel_error": return False
+            raise RuntimeError("replaced select does not know %r" % (o,))
+        return bool(f())
+
     def fselect(r, w, x, timeout=None):
         r, w, x = list(r), list(w), list(x)
-        for o in r + w + x:
-            if not isinstance(o, FPinger): raise RuntimeError("replaced select only knows pingers, got %r" % (o,))
-        to = ctl.yield_point(P("select"), blocked=lambda: any(p.count > 0 for p in r), timeout=timeout is not None)
+        def result():
+            return ([o for o in r if _ready(o, "fsel_readable")], [o for o in w if _ready(o, "fsel_writable")],
+                    [o for o in x if _ready(o, "fsel_error")])
+        to = ctl.yield_point(P("select"), blocked=lambda: any(result()), timeout=timeout is not None)
         if to: return [], [], []
-        return [p for p in r if p.count > 0], [], []
+        return result()
 
     class FThread:
         def __init__(self, group=None, target=None, name=None, args=(), kwargs=None, daemon=None):
@@ -261,7 +297,7 @@ def make_primitives(ctl, thread_namer=None):
 
     class FThreading:
         """stand-in for the `threading` module as far as the code under test uses it"""
-        Lock = FLock; RLock = FLock; Event = FEvent; Thread = FThread; local = _rt.local
+        Lock = FLock; RLock = FRLock; Event = FEvent; Thread = FThread; local = _rt.local
         @staticmethod
         def current_thread():
             t = ctl.me()
@@ -275,6 +311,7 @@ def make_primitives(ctl, thread_namer=None):
     class NS: pass
     ns = NS()
     ns.Lock, ns.Event, ns.Queue, ns.Pinger, ns.select, ns.Thread = FLock, FEvent, FQueue, FPinger, fselect, FThread
+    ns.RLock, ns.P = FRLock, P
     ns.threading, ns.select_module = FThreading, FSelectModule
     return ns
 
